@@ -32,6 +32,10 @@ pub struct Case {
     pub wakers: Vec<u8>,
     /// Submission queue (2 entries) already full of queued entries.
     pub full_queue: bool,
+    /// A completion is already in the queue when the k-th non-blocking poll
+    /// starts, so that poll never enters the kernel.
+    #[serde(default)]
+    pub prefill: Vec<bool>,
     pub tape: Vec<u16>,
 }
 
@@ -52,9 +56,10 @@ impl Property for C11 {
             0u8..3,
             proptest::collection::vec(1u8..=2, 1..=3),
             proptest::bool::weighted(0.3),
+            proptest::collection::vec(proptest::bool::weighted(0.4), 2),
             proptest::collection::vec(any::<u16>(), 0..160),
         )
-            .prop_map(|(mode, zero_polls, wakers, full_queue, tape)| Case { mode, zero_polls, wakers, full_queue, tape })
+            .prop_map(|(mode, zero_polls, wakers, full_queue, prefill, tape)| Case { mode, zero_polls, wakers, full_queue, prefill, tape })
             .boxed()
     }
 
@@ -67,7 +72,7 @@ impl Property for C11 {
     }
 
     fn rule() -> &'static str {
-        "proptest programs run under a baton scheduler (one runnable thread; scheduling points at a10's lock/try_lock, kernel-shared loads, tail/head stores, the polling-state swap and fetch_or, and every simulated system call) following a generated choice tape (round-robin afterwards): a poller thread runs Ring::poll(Some(0)) 0..2 times and then Ring::poll(None) with nothing in flight; 1..3 waker threads call SubmissionQueue::wake() once or twice; rings: default, kernel-thread (a kernel actor consumes, idles with NEED_WAKEUP and is woken by IORING_ENTER_SQ_WAKEUP) and single-issuer (synchronous register path); optionally the submission queue is full of queued entries. Oracle over the scheduler's total order: if some wake() call started after the poller's previous Ring::poll returned (or there was none), the blocking poll must return; the violating state is the poller parked in io_uring_enter without timeout with no runnable thread. Then, sequentially: wake() after the Ring is dropped must neither panic nor make a system call. Non-trivial = the wake's state change fell between the poller announcing that it polls and its return from the kernel, or between two polls (a context switch inside a10 on both threads). Distinct = (mode, classes, 16-bit case hash)."
+        "proptest programs run under a baton scheduler (one runnable thread; scheduling points at a10's lock/try_lock, kernel-shared loads, tail/head stores, the polling-state swap and fetch_or, and every simulated system call) following a generated choice tape (round-robin afterwards): a poller thread runs Ring::poll(Some(0)) 0..2 times (optionally with a completion already queued, so that the poll never enters the kernel) and then Ring::poll(None) with nothing in flight; 1..3 waker threads call SubmissionQueue::wake() once or twice; rings: default, kernel-thread (a kernel actor consumes, idles with NEED_WAKEUP and is woken by IORING_ENTER_SQ_WAKEUP) and single-issuer (synchronous register path); optionally the submission queue is full of queued entries. Oracle over the scheduler's total order: if some wake() call started after the poller's previous Ring::poll returned (for a previous poll that never entered the kernel: after it started; or there was none), the blocking poll must return; the violating state is the poller parked in io_uring_enter without timeout with no runnable thread. Then, sequentially: wake() after the Ring is dropped must neither panic nor make a system call. Non-trivial = the wake's state change fell between the poller announcing that it polls and its return from the kernel, or between two polls (a context switch inside a10 on both threads). Distinct = (mode, classes, 16-bit case hash)."
     }
 
     fn assumptions() -> Vec<&'static str> {
@@ -118,6 +123,7 @@ fn run_case(case: &Case, ctx: &mut Ctx) {
     let last_poll_return = Arc::new(AtomicU64::new(0));
     let wake_starts: Arc<Mutex<Vec<u64>>> = Arc::new(Mutex::new(Vec::new()));
     let poller_done = Arc::new(AtomicBool::new(false));
+    let fast_path_polls = Arc::new(AtomicUsize::new(0));
     let wakers_done = Arc::new(AtomicUsize::new(0));
     let errors: Arc<Mutex<Vec<String>>> = Arc::new(Mutex::new(Vec::new()));
     let nwakers = case.wakers.len().clamp(1, 3);
@@ -132,10 +138,23 @@ fn run_case(case: &Case, ctx: &mut Ctx) {
         let done = poller_done.clone();
         let errors = errors.clone();
         let zero = case.zero_polls.min(2);
+        let prefill = case.prefill.clone();
+        let fast_path = fast_path_polls.clone();
         threads.push(Box::new(move || {
             let mut ring = ring_slot.lock().unwrap().take().unwrap();
             for k in 0..=zero {
                 let timeout = if k < zero { Some(Duration::ZERO) } else { None };
+                if timeout.is_some() && prefill.get(k as usize).copied().unwrap_or(false) {
+                    // The kernel has posted something already (an ignored
+                    // cancel acknowledgement): this poll will not enter.
+                    sched::point(sched::Kind::Syscall);
+                    let mut s = sim::sim();
+                    if let Some(r) = s.ring(ring_fd) {
+                        r.post_raw(crate::abi::Cqe { user_data: 2, res: -libc::ENOENT, flags: 0 }, 0);
+                    }
+                }
+                let started = seq.fetch_add(1, Ordering::SeqCst);
+                let events_at_start = sim::events_len();
                 let r = {
                     let _s = track::scope(track::TAG_A10);
                     catch(|| ring.0.poll(timeout))
@@ -150,7 +169,18 @@ fn run_case(case: &Case, ctx: &mut Ctx) {
                     *ring_slot.lock().unwrap() = Some(ring);
                     return;
                 }
-                last.store(seq.fetch_add(1, Ordering::SeqCst), Ordering::SeqCst);
+                // From when on is this poll no longer one a wake() could be
+                // meant for? A poll that entered the kernel to wait: from its
+                // return. A poll that never entered (completions were already
+                // there) was never blocked: from its start.
+                let entered = sim::events_since(events_at_start.min(sim::events_len())).iter().any(|e| matches!(e, sim::SimEvent::Enter { fd, flags, .. } if *fd == ring_fd && flags & crate::abi::ENTER_GETEVENTS != 0));
+                let returned = seq.fetch_add(1, Ordering::SeqCst);
+                if entered {
+                    last.store(returned, Ordering::SeqCst);
+                } else {
+                    last.store(started, Ordering::SeqCst);
+                    fast_path.fetch_add(1, Ordering::SeqCst);
+                }
             }
             done.store(true, Ordering::SeqCst);
             *ring_slot.lock().unwrap() = Some(ring);
@@ -262,7 +292,7 @@ fn run_case(case: &Case, ctx: &mut Ctx) {
         if qualifying > 0 {
             ctx.violation(
                 "C11:lost-wakeup",
-                format!("{} wake() call(s) started after the poller's previous Ring::poll had returned, yet the blocking Ring::poll never returned (parked: {:?}; mode {:?})", qualifying, outcome.parked_at_end, case.mode),
+                format!("{} wake() call(s) started after the poller's previous Ring::poll had returned (or, for a poll that found completions waiting and never entered the kernel, after it had started), yet the blocking Ring::poll never returned (parked: {:?}; mode {:?})", qualifying, outcome.parked_at_end, case.mode),
             );
         } else {
             classes.push("no-wake-after-last-poll");
@@ -273,6 +303,9 @@ fn run_case(case: &Case, ctx: &mut Ctx) {
     }
     if finished {
         classes.push("poller-returned");
+    }
+    if fast_path_polls.load(Ordering::SeqCst) > 0 {
+        classes.push("poll-without-entering");
     }
 
     // Sequential: wake() after the Ring is dropped is harmless.
